@@ -1,4 +1,5 @@
 //! Independent reference models, written from PROTOCOL.md / CONFIGURATION.md / RFCs.
 pub mod iana;
 pub mod icmp;
+pub mod rules;
 pub mod udpmux;
